@@ -414,11 +414,13 @@ def C(suite, mode='full', kind='tie', only=None):
 
 # (suite, n_quick, n_thorough, extra args) and the comparisons made on its lines
 PROPS = {
-    'C01': dict(suites=[('tree', 1500, 60000), ('lex', 1500, 40000), ('serve', 3000, 60000), ('treex', 3, 4), ('lexx', 3, 4)],
+    'C01': dict(suites=[('tree', 1500, 60000), ('lex', 1500, 40000), ('serve', 3000, 60000), ('treex', 3, 4), ('lexx', 3, 4), ('servex', 1, 2)],
                 cmps=[C('tree', 'treebits', 'spec'), C('lex', 'full', 'tie', only=('parse',)), C('serve', 'bitsPA', 'spec'),
-                      C('treex', 'treebits', 'spec'), C('lexx', 'full', 'tie', only=('parse',))]),
+                      C('treex', 'treebits', 'spec'), C('lexx', 'full', 'tie', only=('parse',)), C('servex', 'bitsPA', 'spec'),
+                      # the decision as the middleware itself takes it (the tree as validation built it), seen through the CORS headers
+                      C('serve', 'c03', 'tie'), C('servex', 'c03', 'tie')]),
     # "every accepted configuration" includes the ones put in force by Reconfigure on a middleware whose handlers were wrapped earlier
-    'C02': dict(suites=[('intents', 6000, 200000), ('serve', 3000, 80000), ('tree', 500, 20000), ('acrh', 1000, 40000), ('history', 100, 3000), ('acrhx', 4, 5), ('servex', 1, 2)],
+    'C02': dict(suites=[('intents', 6000, 200000), ('serve', 3000, 80000), ('tree', 500, 20000), ('acrh', 1000, 40000), ('history', 100, 3000), ('acrhx', 4, 5), ('servex', 1, 2), ('history', 60, 1500, ('-adversarial',))],
                 cmps=[C('intents', 'firsttoken', 'spec'), C('serve', 'full', 'tie'), C('tree', 'treebits', 'spec'), C('acrh', 'full', 'spec'), C('history', 'dec', 'spec'),
                       C('acrhx', 'full', 'spec'), C('servex', 'full', 'tie')]),
     # C03 speaks of *allowed* origins: the ties of the two origin-decision components (tree, request-side lexer) belong to it
@@ -426,8 +428,8 @@ PROPS = {
     'C03': dict(suites=[('serve', 6000, 150000), ('tree', 800, 30000), ('lex', 800, 30000), ('history', 120, 3000), ('treex', 3, 4), ('lexx', 3, 4), ('servex', 1, 2)],
                 cmps=[C('serve', 'c03', 'tie'), C('tree', 'treebits', 'spec'), C('lex', 'full', 'tie', only=('parse',)), C('history', 'c03', 'tie'),
                       C('treex', 'treebits', 'spec'), C('lexx', 'full', 'tie', only=('parse',)), C('servex', 'c03', 'tie')]),
-    'C04': dict(suites=[('validate', 3000, 100000), ('names', 300, 20000), ('lex', 1000, 20000), ('validatex', 2, 3)],
-                cmps=[C('validate', 'accept', 'spec'), C('names', 'full', 'tie'), C('lex', 'full', 'tie', only=('pattern',)), C('validatex', 'accept', 'spec')]),
+    'C04': dict(suites=[('validate', 3000, 100000), ('names', 300, 20000), ('lex', 1000, 20000), ('validatex', 2, 3), ('lexx', 3, 4)],
+                cmps=[C('validate', 'accept', 'spec'), C('names', 'full', 'tie'), C('lex', 'full', 'tie', only=('pattern',)), C('validatex', 'accept', 'spec'), C('lexx', 'full', 'tie', only=('pattern',))]),
     'C05': dict(suites=[('validate', 6000, 150000), ('validatex', 2, 3)], cmps=[C('validate', 'full', 'spec'), C('validatex', 'full', 'spec')]),
     'C06': dict(suites=[('roundtrip', 1500, 60000), ('history', 150, 4000), ('validate', 2000, 50000), ('treex', 3, 4)],
                 cmps=[C('roundtrip', 'full', 'spec'), C('history', 'dec', 'tie'), C('validate', 'full', 'tie'), C('treex', 'full', 'tie')]),
@@ -442,12 +444,12 @@ PROPS = {
     # once poisons the Vary of every later response of the process)
     'C10': dict(suites=[('serve', 5000, 120000), ('pairs10', 5000, 150000), ('pairs10', 2500, 50000, ('-adversarial',)), ('servex', 1, 2)], cmps=[C('serve', 'vary', 'tie'), C('pairs10', 'full', 'spec'), C('servex', 'vary', 'tie')]),
     # histories: "a configured middleware" is a state, and handlers wrapped before a reconfiguration must follow it
-    'C11': dict(suites=[('serve', 6000, 150000), ('history', 120, 3000), ('servex', 1, 2)], cmps=[C('serve', 'c11', 'spec'), C('history', 'c11', 'spec'), C('servex', 'c11', 'spec')]),
+    'C11': dict(suites=[('serve', 6000, 150000), ('history', 120, 3000), ('servex', 1, 2), ('schedule', 100, 2500)], cmps=[C('serve', 'c11', 'spec'), C('history', 'c11', 'spec'), C('servex', 'c11', 'spec'), C('schedule', 'full', 'spec')]),
     'C12': dict(suites=[('history', 150, 4000, ('-adversarial',)), ('serve', 2000, 50000, ('-adversarial',))],
                 cmps=[C('history', 'dec', 'spec'), C('serve', 'dec', 'spec')]),
-    'C13': dict(suites=[('lex', 4000, 150000), ('lexx', 3, 4), ('ip6x', 3, 4)], cmps=[C('ip6x', 'full', 'tie', only=('pattern',)), C('ip6x', 'full', 'tie', only=('parse',)),
+    'C13': dict(suites=[('lex', 4000, 150000), ('lexx', 3, 4), ('ip6x', 3, 4), ('validatex', 2, 3)], cmps=[C('ip6x', 'full', 'tie', only=('pattern',)), C('ip6x', 'full', 'tie', only=('parse',)),
                                                                          C('lex', 'full', 'tie', only=('pattern',)), C('lex', 'full', 'tie', only=('parse',)),
-                                                                         C('lexx', 'full', 'tie', only=('pattern',)), C('lexx', 'full', 'tie', only=('parse',))]),
+                                                                         C('lexx', 'full', 'tie', only=('pattern',)), C('lexx', 'full', 'tie', only=('parse',)), C('validatex', 'full', 'tie')]),
     'C14': dict(suites=[('acrh', 3000, 150000), ('serve', 2000, 50000), ('acrhx', 4, 5), ('servex', 1, 2)], cmps=[C('acrh', 'full', 'spec'), C('serve', 'bitsH', 'spec'), C('acrhx', 'full', 'spec'), C('servex', 'bitsH', 'spec')]),
     # order independence of Origins is a property of the tree: its tie belongs to the check
     'C15': dict(suites=[('twins', 4000, 150000), ('validate', 2000, 50000), ('tree', 800, 30000), ('treex', 3, 4)],
@@ -462,7 +464,7 @@ PROPS = {
                             'regenerated loop/install facts proved by decide (no allocating construct and only allow-listed callees inside loops on the request path), and measured conformance: '
                             'testing.AllocsPerRun around ServeHTTP for 56 families (4 configuration kinds x debug x 7 request kinds) at sizes 1 B .. 100 000 (thorough: .. 1 MiB); '
                             'the count must not grow within a family and must stay <= 8. Escape analysis and the runtime are outside any model; the measurement is what ties the claim to the code.'),
-    'C19': dict(suites=[('errors', 150, 5000), ('validate', 2000, 50000), ('validatex', 2, 3)], cmps=[C('errors', 'full', 'spec'), C('validate', 'errcount', 'spec'), C('validatex', 'errcount', 'spec')]),
+    'C19': dict(suites=[('errors', 150, 5000), ('validate', 2000, 50000), ('validatex', 2, 3), ('history', 100, 2500)], cmps=[C('errors', 'full', 'spec'), C('validate', 'errcount', 'spec'), C('validatex', 'errcount', 'spec'), C('history', 'full', 'spec', only=('h.new', 'h.reconf'))]),
 }
 
 
